@@ -92,6 +92,26 @@ def find_registrations(fn: ast.AST) -> List[Registration]:
     return out
 
 
+def check_contents_read_verbatim(ctx, g) -> None:
+    RID = "C10.R8-file-contents-read-verbatim"
+    resolve = g.func("DataReference.resolve")
+    ctx.analysed(resolve)
+    opens = [c for c in ast.walk(resolve) if isinstance(c, ast.Call) and isinstance(c.func, ast.Name) and c.func.id == "open" and c.args]
+    ctx.floor(RID, len(opens), 2, "files opened in DataReference.resolve (:output and :loopoutput)")
+    for c in opens:
+        mode = c.args[1] if len(c.args) > 1 else next((k.value for k in c.keywords if k.arg == "mode"), None)
+        binary = isinstance(mode, ast.Constant) and isinstance(mode.value, str) and "b" in mode.value
+        no_translation = any(k.arg == "newline" and isinstance(k.value, ast.Constant) and k.value.value == "" for k in c.keywords)
+        writes = isinstance(mode, ast.Constant) and isinstance(mode.value, str) and any(x in mode.value for x in "wax+")
+        ok = binary or no_translation or writes
+        ctx.ob(RID, c, ok,
+               "the referenced file is read without newline translation" if ok else
+               "DataReference.resolve reads %s in text mode (%s): universal newlines turn every '\\r\\n' and lone '\\r' of the file into '\\n' (a CRLF "
+               "file, a progress meter written with '\\r'), and a strict decoder makes a file that is not valid UTF-8 count as missing - what is "
+               "substituted is not the contents of the referenced file" % (short(c.args[0], 30), short(c, 60)),
+               construct="resolve: open(<referenced file>, 'rb')")
+
+
 def check_value_afresh(ctx, g, resolve_args: ast.AST) -> None:
     """R7: the value substituted for a reference is that reference's value *now*."""
     from vlib.cfg import CFG, own_calls
@@ -202,6 +222,8 @@ def run(ctx) -> None:
              "with its backslashes escaped), never as a replacement *template* in which \\1, \\g<0>, \\n are interpreted")
     ctx.rule("C10.R6-no-rescan", "text inserted for one reference is never scanned for the other references: the string that is "
              "searched/rewritten is not modified inside the loop over the references (substitution in one pass)")
+    ctx.rule("C10.R8-file-contents-read-verbatim", "the file behind an output-family reference is read as BYTES in DataReference.resolve (open mode with 'b', "
+             "or text mode with newline=''): text mode translates '\\r\\n' and '\\r' into '\\n', so what is inserted would not be the contents of the file")
     ctx.rule("C10.R7-value-computed-afresh", "DataReference.resolve and resolveArguments remember nothing between calls (no store into "
              "the reference, its class or a module global; no memoising decorator), and what resolve returns for an :output "
              "reference is, on every path, the result of reading the referenced file in this very call")
@@ -606,6 +628,7 @@ def run(ctx) -> None:
                "spellings) the relative occurrence is left in the text", construct=short(u, 100) + " <- not only when the absolute spelling is absent")
 
     check_value_afresh(ctx, g, fn)
+    check_contents_read_verbatim(ctx, g)
 
     if ctx.tier == "thorough":
         # information only: the same idiom elsewhere in the repository (outside the property's scope)
